@@ -20,6 +20,7 @@ import (
 	"sort"
 	"strings"
 	"sync"
+	"sync/atomic"
 	"testing/synctest"
 	"time"
 
@@ -30,6 +31,7 @@ import (
 	"go.yaml.in/yaml/v2"
 
 	"github.com/prometheus/prometheus/config"
+	"github.com/prometheus/prometheus/internal/verif/vsched"
 	"github.com/prometheus/prometheus/internal/verif/vsync"
 	"github.com/prometheus/prometheus/internal/verif/vx"
 	"github.com/prometheus/prometheus/model/histogram"
@@ -43,7 +45,28 @@ import (
 	"github.com/prometheus/prometheus/util/compression"
 )
 
-func init() { vsync.BubbleMode.Store(true) }
+// c40Current is the world whose bubble is running (one worker per process, histories are
+// executed one after the other).
+var c40Current atomic.Pointer[c40World]
+
+func init() {
+	vsync.BubbleMode.Store(true)
+	// a panic on a goroutine of the queue manager (shard, reshard loop, ...) is behaviour of the
+	// code under test: report it instead of dying
+	vsched.UncontrolledPanic = func(v any, stack []byte) {
+		w := c40Current.Load()
+		if w == nil {
+			panic(v)
+		}
+		st := string(stack)
+		if len(st) > 1500 {
+			st = st[:1500]
+		}
+		w.mu.Lock()
+		w.failf("panic-in-queue-manager-goroutine", "%v\n%s", v, st)
+		w.mu.Unlock()
+	}
+}
 
 // ---- configuration ---------------------------------------------------------------------------
 
@@ -219,12 +242,17 @@ type c40World struct {
 	checked   bool
 	closed    bool
 	fail      *vx.Fail
+	sigs      map[string]bool // every oracle complaint so far (fail keeps the first)
 	hist      []string
 }
 
 func (w *c40World) clk() int64 { return int64(time.Since(w.start) / time.Millisecond) }
 
 func (w *c40World) failf(sig, format string, a ...any) {
+	if w.sigs == nil {
+		w.sigs = map[string]bool{}
+	}
+	w.sigs[sig] = true
 	if w.fail == nil {
 		w.fail = vx.Failf(sig, "history %v: %s", w.hist, fmt.Sprintf(format, a...))
 	}
@@ -237,6 +265,7 @@ func (w *c40World) logf(format string, a ...any) {
 func c40NewWorld(cfg c40Cfg, mkFeed func(w *c40World) c40Feeder) *c40World {
 	w := &c40World{cfg: cfg, start: time.Now(), exp: map[string]*c40Exp{}, lastSeq: map[string]int{}, byWant: map[string]string{}}
 	w.base = w.start.UnixMilli()
+	c40Current.Store(w)
 	w.defs = c40Series()
 	for _, d := range w.defs {
 		if d.Want != "" {
